@@ -2,12 +2,26 @@ package main
 
 import (
 	"fmt"
-	"go/types"
-	"reflect"
-	"strings"
+	"go/token"
+
+	"golang.org/x/tools/go/ssa"
 
 	"omnilint/core"
 )
+
+func isLenLike(v ssa.Value) bool {
+	cl, ok := v.(*ssa.Call)
+	if !ok {
+		return false
+	}
+	if bi, ok := cl.Call.Value.(*ssa.Builtin); ok && (bi.Name() == "len" || bi.Name() == "cap") {
+		return true
+	}
+	if o := core.CalleeObj(cl); o != nil && o.Name() == "Len" {
+		return true
+	}
+	return false
+}
 
 func main() {
 	c, err := core.Load("/repo", core.Variant{Name: "default"})
@@ -19,25 +33,31 @@ func main() {
 		if core.IsCLIOrSample(core.FuncPkg(f)) {
 			continue
 		}
-		for _, w := range core.Writes(f) {
-			if w.Field == nil || w.Owner == nil || !w.Field.Exported() {
-				continue
-			}
-			st, ok := w.Owner.Underlying().(*types.Struct)
-			if !ok {
-				continue
-			}
-			tag := ""
-			for i := 0; i < st.NumFields(); i++ {
-				if st.Field(i) == w.Field {
-					tag = reflect.StructTag(st.Tag(i)).Get("json")
+		for _, b := range f.Blocks {
+			for _, in := range b.Instrs {
+				switch x := in.(type) {
+				case *ssa.Slice:
+					for _, bd := range []ssa.Value{x.Low, x.High, x.Max} {
+						if bo, ok := bd.(*ssa.BinOp); ok && bo.Op == token.SUB {
+							fmt.Printf("SLICE-SUB %s %s: %s  lenlike=%v\n", c.Position(core.InstrPos(in)), core.FuncKey(f), bo, isLenLike(bo.X))
+						}
+					}
+				case *ssa.IndexAddr:
+					if bo, ok := x.Index.(*ssa.BinOp); ok && bo.Op == token.SUB {
+						fmt.Printf("INDEX-SUB %s %s: %s lenlike=%v\n", c.Position(core.InstrPos(in)), core.FuncKey(f), bo, isLenLike(bo.X))
+					}
+				case *ssa.Index:
+					if bo, ok := x.Index.(*ssa.BinOp); ok && bo.Op == token.SUB {
+						fmt.Printf("INDEX-SUB %s %s: %s lenlike=%v\n", c.Position(core.InstrPos(in)), core.FuncKey(f), bo, isLenLike(bo.X))
+					}
+				case *ssa.MakeSlice:
+					_, lc := x.Len.(*ssa.Const)
+					_, cc := x.Cap.(*ssa.Const)
+					if !lc || !cc {
+						fmt.Printf("MAKESLICE %s %s: len=%s cap=%s\n", c.Position(core.InstrPos(in)), core.FuncKey(f), x.Len, x.Cap)
+					}
 				}
 			}
-			if tag == "" || !core.InRepo(w.Owner.Obj().Pkg()) {
-				continue
-			}
-			fmt.Printf("%s\t%s.%s\t%s\tkind=%s fresh=%v\n", c.Position(w.Pos), w.Owner.Obj().Name(), w.Field.Name(), core.FuncKey(f), w.Kind, core.IsFresh(w.Root))
 		}
 	}
-	_ = strings.Join
 }
